@@ -37,6 +37,7 @@ var probeAlphabet = []probeSpec{
 	{"cel(true)", corev1alpha1.Probe{CEL: &corev1alpha1.ProbeCELSpec{Rule: "true", Message: "m"}}},
 	{"cel(false)", corev1alpha1.Probe{CEL: &corev1alpha1.ProbeCELSpec{Rule: "false", Message: "m"}}},
 	{"cel(error)", corev1alpha1.Probe{CEL: &corev1alpha1.ProbeCELSpec{Rule: "self.nope.x == 1", Message: "m"}}},
+	{"cel(false,no message)", corev1alpha1.Probe{CEL: &corev1alpha1.ProbeCELSpec{Rule: "false", Message: ""}}},
 	{"empty", corev1alpha1.Probe{}},
 }
 
@@ -249,7 +250,7 @@ func refProbe(name string, o *unstructured.Unstructured) tri {
 		return 0
 	case "cel(true)":
 		return 1
-	case "cel(false)", "cel(error)":
+	case "cel(false)", "cel(error)", "cel(false,no message)":
 		return 0
 	}
 	panic("unknown probe " + name)
@@ -363,7 +364,7 @@ func run(o checks.Opts) *report.Report {
 	rep.Bounds["objects"] = len(objs)
 	rep.Bounds["first_probe_variants"] = len(first)
 	rep.Bounds["second_probe_variants"] = len(second)
-	rep.Rule = "probe lists: [] , [p] and [p,q] with p from 6 selectors x (<=2 probes from 8 kinds), q from selectors x (<=1 probe); objects: generation x labels x status shape (absent, {}, scalar, observedGeneration absent/=/!=/string/float x 14 conditions shapes x fieldsEqual operand absent/equal/different); every list is parsed by the real internal/probing.Parse and probed on every object; distinct = (success, #messages, undecided)"
+	rep.Rule = "probe lists: [] , [p] and [p,q] with p from 6 selectors x (<=2 probes from 9 kinds incl. a failing CEL rule with an empty message), q from selectors x (<=1 probe); objects: generation x labels x status shape (absent, {}, scalar, observedGeneration absent/=/!=/string/float x 14 conditions shapes x fieldsEqual operand absent/equal/different); every list is parsed by the real internal/probing.Parse and probed on every object; distinct = (success, #messages, undecided)"
 	var lists [][]osProbe
 	lists = append(lists, nil)
 	for _, p := range first {
